@@ -90,6 +90,14 @@ def main(argv=None):
     if spec.get('extra'):
         extra = spec['extra'](pid, a.tier, seed, runs)          # e.g. Kani back end, L3 pipeline; returns dict
     inconclusive = [r for r in runs if r.status == 'inconclusive']
+    # obligations that failed in a function using results Verus knows nothing about (std method without contract, closure without
+    # postcondition): the proof is undecided.  They become a VIOLATION only if the witness search replays a concrete failing
+    # input on the real code; otherwise the check is inconclusive.
+    undecided: List[Failure] = []
+    for r in runs:
+        for f in getattr(r, 'undecided_failures', []) or []:
+            if pid in f.props:
+                undecided.append(f)
     if extra and extra.get('inconclusive'):
         inconclusive.append(extra['inconclusive'])
     # ---- obligations of this property
@@ -102,7 +110,7 @@ def main(argv=None):
         for ob in r.obligations:
             if pid in u.props_of(ob):
                 obligations.append(f'{r.unit}:{ob}')
-        if r.status != 'failed':
+        if r.status not in ('failed',):
             continue          # failures of an inconclusive unit are not verdicts
         for f in r.failures:
             if pid in f.props:
@@ -112,6 +120,16 @@ def main(argv=None):
         fails += extra.get('failures', [])
     viol: Dict[str, List[Failure]] = {}
     known_hits = []
+    # a failed assertion inside a spliced ghost proof block means "the proof did not go through" (Verus then assumes it for the rest
+    # of the function): that is UNDECIDED, not a verdict.  It is reported as inconclusive unless a real obligation fails as well.
+    hints = [f for f in fails if f.obligation.endswith('#proof-hint')]
+    fails = [f for f in fails if not f.obligation.endswith('#proof-hint')]
+    if hints and not fails:
+        class _H:
+            unit = hints[0].unit
+            status = 'inconclusive'
+            reason = 'ghost proof block no longer verifies (needs proof maintenance, not a verdict): ' + ', '.join(sorted({h.obligation for h in hints}))
+        inconclusive.append(_H())
     for f in fails:
         k = match_known(pid, f, known)
         if k:
@@ -119,6 +137,26 @@ def main(argv=None):
             known_hits.append((f, k))
         else:
             viol.setdefault(f.obligation, []).append(f)
+    if undecided:
+        w = None
+        if spec.get('witness'):
+            try:
+                w = spec['witness'](pid, undecided, REPO)
+            except Exception as e:
+                w = {'error': repr(e)}
+        if w and w.get('found'):
+            for f in undecided:
+                f.message += ' [proof undecided (unconstrained std/closure result); decided by replaying a failing input on the real code]'
+                f.pre_witness = w
+                viol.setdefault(f.obligation, []).append(f)
+            fails = fails + undecided
+        else:
+            class _U:
+                unit = undecided[0].unit
+                status = 'inconclusive'
+                reason = 'undecided obligations (function uses a std method / closure without contract, and no failing input was found on the real code): ' + \
+                         ', '.join(sorted({f.obligation for f in undecided}))
+            inconclusive.append(_U())
     failed_obs = {f'{f.unit}:{f.obligation}' for f in fails}
     kf_obs = sorted({f'{f.unit}:{f.obligation}' for f, _ in known_hits} - {f'{x.unit}:{x.obligation}' for v in viol.values() for x in v})
     counted = [o for o in obligations if o not in kf_obs]
@@ -142,8 +180,8 @@ def main(argv=None):
         for ob, fl in viol.items():
             nviol += 1
             path = os.path.join(REPLAYS, f'{pid}-{hashlib.sha1(ob.encode()).hexdigest()[:10]}.json')
-            witness = None
-            if spec.get('witness'):
+            witness = getattr(fl[0], 'pre_witness', None)
+            if witness is None and spec.get('witness'):
                 try:
                     witness = spec['witness'](pid, fl, REPO)
                 except Exception as e:      # replay aid only; never masks the report
